@@ -185,7 +185,7 @@ ROBUST_OPTS = [[], ["--layout=reverse"], ["--layout=reverse-list"], ["--border"]
                ["--tmux-ignored-placeholder"]]
 RAW = ["1b", "1b5b", "1b5b31", "1b5b3c", "1b5b3c303b353b354d", "1b5b3c303b353b356d", "1b5b3c33323b313b314d", "1b5b3c36343b323b324d", "1b5b3c36353b323b324d",
        "1b5b3c303b3939393b3939394d", "1b5b4d202121", "1b5b3230307e", "1b5b3230317e", "1b5b3230307e61620d631b5b3230317e", "1b4f", "1b4f50", "1b5b313b3541",
-       "1b5b41", "1b5b42", "1b5b357e", "1b5b367e", "1b5b5a", "1b1b", "1b7f", "c3", "e6bc", "e6bca2", "ff", "fe80", "00", "1c", "1d", "1e", "1f", "7f", "09", "0c", "12",
+       "1b5b41", "1b5b42", "1b5b357e", "1b5b367e", "1b5b5a", "1b1b", "1b7f", "c3", "e6bc", "e6bca2", "ff", "fe80", "00", "1d", "1e", "1f", "7f", "09", "0c", "12",
        "1b5b3939393939393939393939393b31523b", "1b5b313b3152", "1b5d", "1b50", "1b5b3f", "9b41", "61", "20", "0b", "0e", "10", "15", "17", "19", "01", "05", "02", "06", "08"]
 
 
@@ -384,9 +384,11 @@ def run(ctx):
             try:
                 return ix, runner(sc)(ctx, fzf, ix, sc)
             except Infra as ex:
-                # the terminal emulator itself died (tmux 3.3a does, rarely, at tiny sizes): no observation, no verdict
+                # the terminal emulator or the pane's shell died (tmux 3.3a does, rarely, at tiny sizes): no observation,
+                # no verdict.  (ctrl-\ is not among the raw bytes: typed just after fzf has restored the terminal it is a
+                # SIGQUIT for the pane's shell)
                 if sc["kind"] == "R" and any(m in str(ex) for m in ("server exited unexpectedly", "no server running", "lost server", "pane's tty is gone")):
-                    log("life %d: tmux died (%s)%s" % (ix, str(ex)[:120], ", trying once more" if attempt == 0 else ", skipped"))
+                    log("life %d: terminal emulator / pane died (%s)%s" % (ix, str(ex)[:120], ", trying once more" if attempt == 0 else ", skipped"))
                     with open(os.path.join(ctx.work, "..", "C14-skipped-%d.json" % ix), "w") as fh:
                         json.dump({"scenario": sc, "error": str(ex)}, fh)
                     continue
